@@ -147,7 +147,8 @@ def srv_get_attribute(ghost, handle):
 # bearer classes (device.Connection, l2cap.LeCreditBasedChannel).  A *ghost* object: it has no class, so any look at the
 # bearer's type or at another attribute inside a handler would be Unsupported / AttributeError, never silently accepted.
 # Which wire a reply goes out on is Server.send_response / send_gatt_pdu (c10_dispatch.py, both real bearer classes).
-model('ghost:Bearer#c10', fields=dict(att_mtu=MTU, g_id=Int), methods={'on_att_mtu_update': Callback('on_att_mtu_update', effect=mtu_update)})
+# (`handle` is only read by log lines when a counter-model is replayed natively)
+model('ghost:Bearer#c10', fields=dict(att_mtu=MTU, g_id=Int, handle=IntRange(0, 0xEFF)), methods={'on_att_mtu_update': Callback('on_att_mtu_update', effect=mtu_update)})
 BEARER = Inst('ghost:Bearer#c10')
 
 SERVER_METHODS = {
